@@ -83,6 +83,82 @@ theorem second_attempt_after_backoff (r0 r : Rat) (rest : List Bool) (ds : List 
   · simp [rr, run, runFrom, Gen.maxRetries]
   · cases o2 <;> simp [rr, run, runFrom, Gen.maxRetries]
 
+/-- The smallest value of each of the round's three backoffs (attempt numbers 0, 1, 2): 45, 90 and 180 ms. -/
+theorem backoffLo_values :
+    backoffLo defaultCfg 0 = 45000000 ∧ backoffLo defaultCfg 1 = 90000000 ∧ backoffLo defaultCfg 2 = 180000000 := by
+  refine ⟨?_, ?_, ?_⟩
+  · unfold backoffLo base defaultCfg
+    simp only [Gen.defaultInitialBackoff, Gen.defaultMaxBackoff, Gen.defaultMultiplier, Gen.defaultJitter]
+    have h : (min (((5000000000:Nat):Int):Rat) ((((50000000:Nat):Int):Rat) * (20 / 10) ^ 0) * (1 - 1 / 10)) = ((45000000 : Int) : Rat) := by
+      simp; grind
+    rw [h]; exact Rat.floor_intCast _
+  · unfold backoffLo base defaultCfg
+    simp only [Gen.defaultInitialBackoff, Gen.defaultMaxBackoff, Gen.defaultMultiplier, Gen.defaultJitter]
+    have h : (min (((5000000000:Nat):Int):Rat) ((((50000000:Nat):Int):Rat) * (20 / 10) ^ 1) * (1 - 1 / 10)) = ((90000000 : Int) : Rat) := by
+      simp; grind
+    rw [h]; exact Rat.floor_intCast _
+  · unfold backoffLo base defaultCfg
+    simp only [Gen.defaultInitialBackoff, Gen.defaultMaxBackoff, Gen.defaultMultiplier, Gen.defaultJitter]
+    have h : (min (((5000000000:Nat):Int):Rat) ((((50000000:Nat):Int):Rat) * (20 / 10) ^ 2) * (1 - 1 / 10)) = ((180000000 : Int) : Rat) := by
+      simp; grind
+    rw [h]; exact Rat.floor_intCast _
+
+/-- Every backoff of a round is at least 45 ms, whatever the draw. -/
+theorem round_backoff_ge (k : Nat) (hk : k < 3) (r : Rat) (hr0 : 0 ≤ r) (hr1 : r < 1) :
+    45000000 ≤ backoff defaultCfg k r := by
+  have hb := (C17.backoff_int_bounds defaultCfg defaultCfg_wf k r hr0 hr1).2.1
+  obtain ⟨h0, h1, h2⟩ := backoffLo_values
+  have : k = 0 ∨ k = 1 ∨ k = 2 := by omega
+  rcases this with rfl | rfl | rfl <;> omega
+
+/-- The attempts of a round (from loop counter `k`, time `t`) begin with `t` … -/
+theorem runFrom_head (outcomes : List Bool) (draws : List Rat) (k : Nat) (t : Int) :
+    (runFrom outcomes draws k t).attempts = [] ∨ (runFrom outcomes draws k t).attempts.head? = some t := by
+  cases outcomes with
+  | nil => left; simp [runFrom]
+  | cons o rest =>
+    right
+    unfold runFrom
+    split
+    · simp
+    · split <;> simp
+
+/-- … and consecutive attempts are at least 45 ms apart (the draws are `rand.Float64()` values; a missing draw
+    counts as 0).  This is the bound the trace clause `attempts-not-spaced` checks Create calls against. -/
+theorem runFrom_spaced (outcomes : List Bool) (draws : List Rat) (k : Nat) (t : Int) (hk : k ≤ 3)
+    (hd : ∀ r ∈ draws, 0 ≤ r ∧ r < 1) :
+    List.Pairwise (fun a b => a + 45000000 ≤ b) (runFrom outcomes draws k t).attempts ∧
+    ∀ a ∈ (runFrom outcomes draws k t).attempts, t ≤ a := by
+  induction outcomes generalizing draws k t with
+  | nil => simp [runFrom]
+  | cons o rest ih =>
+    unfold runFrom
+    split
+    · simp
+    · split
+      · simp
+      · rename_i _ hlt
+        simp only [Gen.maxRetries] at hlt
+        have hr : 0 ≤ draws.headD 0 ∧ draws.headD 0 < 1 := by
+          cases draws with
+          | nil => exact ⟨by simp [List.headD], by simp [List.headD]; decide⟩
+          | cons r rs => simpa using hd r (by simp)
+        have hge := round_backoff_ge k (by omega) (draws.headD 0) hr.1 hr.2
+        have ⟨ih1, ih2⟩ := ih draws.tail (k + 1) (t + backoff defaultCfg k (draws.headD 0)) (by omega)
+          (fun r hr' => hd r (List.mem_of_mem_tail hr'))
+        refine ⟨?_, ?_⟩
+        · simp only [List.pairwise_cons]
+          exact ⟨fun b hb => by have := ih2 b hb; omega, ih1⟩
+        · intro a ha
+          simp only [List.mem_cons] at ha
+          rcases ha with rfl | ha
+          · omega
+          · have := ih2 a ha; omega
+
+theorem attempts_spaced (r0 : Rat) (outcomes : List Bool) (draws : List Rat) (hd : ∀ r ∈ draws, 0 ≤ r ∧ r < 1) :
+    List.Pairwise (fun a b => a + 45000000 ≤ b) (run r0 outcomes draws).attempts :=
+  (runFrom_spaced outcomes draws 0 (jitterOf r0) (by omega) hd).1
+
 /-- Where the store log's Create calls come from (regenerated from the source on every run): the only function that
     issues a Create is `attemptAcquire`, with one call site, so an attempt is at most one Create; attempts are made by
     Start (one), by the round (`attemptAcquireWithRetry`, at most four: `at_most_four_attempts`) and by the watcher's
